@@ -100,19 +100,20 @@ def write_hdf(path, tab, unit, mol):
         f.create_dataset('mol_name', data=mol)
 
 
-def enc_exo(tab):
-    """trow, prow, body (list of lines, each a list of numbers): wavelengths ascending, rows `P(bar) xsec(T)..` in m2"""
+def enc_exo(tab, order=None):
+    """trow, prow, body (list of lines, each a list of numbers): rows `P(bar) xsec(T)..` in m2; the wavelength blocks
+    in the standard order (wavelengths ascending = wavenumber index descending) or in the given order of indices"""
     wn, t, p, x = (np.array(tab[k], float) for k in ('wn', 't', 'p', 'x'))
     body = []
-    for k in range(len(wn) - 1, -1, -1):
+    for k in (range(len(wn) - 1, -1, -1) if order is None else order):
         body.append([float((10000 * 1e-6) / wn[k])])
         for i in range(len(p)):
             body.append([float(p[i] / 1e5)] + [float(x[i, j, k] / 10000) for j in range(len(t))])
     return [float(v) for v in t], [float(v / 1e5) for v in p], body
 
 
-def write_exo(path, tab, body_override=None, tail=''):
-    trow, prow, body = enc_exo(tab)
+def write_exo(path, tab, body_override=None, tail='', order=None):
+    trow, prow, body = enc_exo(tab, order)
     if body_override is not None:
         body = body_override
     with open(path, 'w') as f:
@@ -293,7 +294,10 @@ def gen_xsec_case(rng, k):
         x[...] = x.flat[0]
     mols = [str(m) for m in rng.choice(list(MOLS), size=3, replace=False)]
     unit = list(UNITS)[k % len(UNITS)]
-    return dict(kind='xsec', wn=wn, t=t, p=p, x=x, unit=unit,
+    # Exo-Transmit wavelength blocks: standard (ascending wavelength), reversed, or a random permutation
+    eo = k % 4
+    exo_order = None if eo in (0, 2) else (list(range(nwn)) if eo == 1 else [int(v) for v in rng.permutation(nwn)])
+    return dict(kind='xsec', wn=wn, t=t, p=p, x=x, unit=unit, exo_order=exo_order,
                 files=dict(pickle=[decorate(rng, mols[0], 'pickle'), mols[0]],
                            hdf=[decorate(rng, mols[1], 'hdf'), mols[1]],
                            exo=[decorate(rng, mols[2], 'exo'), mols[2]]),
@@ -349,7 +353,19 @@ def gen_cia_case(rng, k):
     Ts = [float(t[0] * 0.5), float(t[-1] * 1.5), float(t[int(rng.integers(0, nT))])]
     i = int(rng.integers(0, nT - 1))
     Ts.append(float(t[i] + rng.uniform(0.1, 0.9) * (t[i + 1] - t[i])))
-    return dict(kind='cia', t=t, ranges=ranges, neg=neg, order=order, pair=pair, suffix=suffix, Ts=Ts,
+    allneg = None
+    if nr > 1 and nT >= 3 and rng.random() < 0.5:
+        r0 = ranges[0]
+        if not any(b - a > 1 for a, b in zip(r0['tidx'], r0['tidx'][1:])):
+            r0['tidx'] = [0, nT - 1]                     # force a temperature gap in the first range ...
+            r0['vals'] = 10 ** (rng.uniform(-50, -40) + rng.uniform(-1, 1, size=(2, len(r0['wn']))))
+            last = ranges[-1]                            # ... and let the last range cover what is left
+            have = set(i for r in ranges for i in r['tidx'])
+            last['tidx'] = sorted(set(last['tidx']) | (set(range(nT)) - have))
+            last['vals'] = 10 ** (rng.uniform(-50, -40) + rng.uniform(-1, 1, size=(len(last['tidx']), len(last['wn']))))
+        a = [i for i, (u, v) in enumerate(zip(r0['tidx'], r0['tidx'][1:])) if v - u > 1][0]
+        allneg = [0, a]
+    return dict(kind='cia', t=t, ranges=ranges, neg=neg, order=order, pair=pair, suffix=suffix, Ts=Ts, allneg=allneg,
                 perm=rng.permutation(64).tolist(), negmask=rng.random(64).tolist())
 
 
@@ -415,7 +431,8 @@ def eval_xsec(ctx, c):
                 write_hdf(path, tab, c['unit'], mol)
                 content = dict(enc_hdf(tab, c['unit']), unit=c['unit'])
             else:
-                trow, prow, body = write_exo(path, tab)
+                exo_order = c.get('exo_order')
+                trow, prow, body = write_exo(path, tab, order=exo_order)
                 content = dict(trow=trow, prow=prow, body=body)
             # names: model vs discover() vs object
             if fmt != 'hdf':
@@ -427,6 +444,9 @@ def eval_xsec(ctx, c):
             oc.clear_cache()
             oc.set_opacity_path(d)
             key = '%s:%s' % (fmt, c['unit'] if fmt == 'hdf' else '-')
+            if fmt == 'exo':
+                eo = c.get('exo_order')
+                key = 'exo:' + ('standard' if eo is None else ('ascending-wn' if eo == sorted(eo) else 'permuted'))
             for mode in MODES:
                 if mode == 'exp' and not positive:
                     continue
@@ -501,7 +521,7 @@ def eval_xsec(ctx, c):
                                       C.LLL(c['x'].tolist()))
                 got = (d2.list(), d2.list(), d2.list())
                 ctx.check_close('written hdf5 p vs encHdf', content['p'], got[2], small, rel=1e-13)
-            else:
+            elif c.get('exo_order') is None:
                 d2 = ctx.model().call('c14.enc_exo', C.L(c['wn']), C.L(c['t']), C.L(c['p']), C.LLL(c['x'].tolist()))
                 got = (d2.list(), d2.list(), d2.list(lambda: d2.list()))
                 ctx.check_close('written Exo-Transmit pressure row vs encExo', content['prow'], got[1], small, rel=1e-13)
@@ -645,6 +665,13 @@ def cia_blocks(c):
                 n += 1
                 pts.append((w, v))
             blocks.append(dict(wn0=wn[0], wn1=wn[-1], T=float(t[j]), mx=float(row.max() / 1e-10), pts=pts))
+    if c.get('allneg') is not None and blocks:          # quota: the block below a temperature gap is negative
+        ri, a = c['allneg']                              # throughout (all clipped), so the gap is interpolated from it
+        wn0 = float(np.asarray(c['ranges'][ri]['wn'], float)[0])
+        Tneg = float(t[c['ranges'][ri]['tidx'][a]])
+        for b in blocks:
+            if b['wn0'] == wn0 and b['T'] == Tneg:
+                b['pts'] = [(w, -abs(v)) for w, v in b['pts']]
     if c['order'] == 'T':
         blocks.sort(key=lambda b: b['T'])
     else:
